@@ -359,6 +359,16 @@ def shard(ctx):
             for node in gen.walk(spec['root']):
                 if 'c' in node and node is not spec['root']:
                     node['l'] = rng.choice(allcats)
+        if heads in ('direct', 'negra') and rng.random() < 0.04:
+            # constituents whose label is the empty string (API-built trees,
+            # TIGER-XML cat=""): block nodes carry the label of their node,
+            # whatever it is
+            inner = [x for x in gen.walk(spec['root'])
+                     if 'c' in x and x is not spec['root']]
+            for x in rng.sample(inner, min(len(inner), 2)):
+                x['l'] = ''
+            if inner:
+                ctx.stratum('constituent whose label is the empty string')
         if rng.random() < 0.3:
             gen.uproot(rng, spec, 0.2)
         if heads == 'direct':
